@@ -734,6 +734,41 @@ where
     Some(format!("{} {}", bit(params_eq), bit(forms_eq)))
 }
 
+/// `c08.params_select n m1 m2 c x`: `ConditionallySelectable` on `MontyParams` and on `MontyForm` between two DIFFERENT
+/// parameter sets (seeds C06-m9 / C08-m8: one field taken from the wrong side): the selected parameters must be exactly the
+/// chosen side's (every private field), the selected form must retrieve the chosen side's value and multiply like it.
+fn params_select<const N: usize, const W: usize>(m1: &str, m2: &str, c: &str, x: &str) -> Option<String>
+where
+    Uint<N>: Concat<Output = Uint<W>>,
+    Uint<W>: Split<Output = Uint<N>>,
+{
+    let a: Option<Odd<Uint<N>>> = Odd::new(arg!(uint::<N>(m1))).into();
+    let b: Option<Odd<Uint<N>>> = Odd::new(arg!(uint::<N>(m2))).into();
+    let (p, q) = (MontyParams::new(arg!(a)), MontyParams::new(arg!(b)));
+    let c = arg!(dec(c));
+    let ch = subtle::Choice::from((c & 1) as u8);
+    let x = arg!(uint::<N>(x));
+    let sel = MontyParams::conditional_select(&p, &q, ch);
+    let mut asg = p;
+    asg.conditional_assign(&q, ch);
+    let (mut s1, mut s2) = (p, q);
+    MontyParams::conditional_swap(&mut s1, &mut s2, ch);
+    let want = if c & 1 == 1 { q } else { p };
+    let (fa, fb) = (MontyForm::new(&x, p), MontyForm::new(&x, q));
+    let fsel = MontyForm::conditional_select(&fa, &fb, ch);
+    let sq = fsel * fsel;
+    Some(format!(
+        "{} {} {} {} | {} {} {}",
+        fields_line_fixed(&sel).replace(' ', ","),
+        bit(fields_line_fixed(&asg) == fields_line_fixed(&sel)),
+        bit(fields_line_fixed(&s1) == fields_line_fixed(&sel)),
+        bit(sel == want && bool::from(sel.ct_eq(&want))),
+        uhex(&fsel.retrieve()),
+        uhex(&sq.retrieve()),
+        fields_line_fixed(fsel.params()).replace(' ', ",")
+    ))
+}
+
 struct ParamsEqConst;
 impl ConstVisitor for ParamsEqConst {
     fn visit<P: ConstMontyParams<N>, const N: usize>(self) -> Option<String> {
@@ -887,6 +922,10 @@ pub fn dispatch(op: &str, a: &[&str]) -> Option<String> {
         ("c08.params_cteq", [n, m1, m2]) => {
             let n = arg!(dec(n));
             with_nw!(n, params_cteq, m1, m2)
+        }
+        ("c08.params_select", [n, m1, m2, c, x]) => {
+            let n = arg!(dec(n));
+            with_nw!(n, params_select, m1, m2, c, x)
         }
         ("c08.params_eq_const", [n, m]) => {
             let n = arg!(dec(n));
